@@ -22,7 +22,7 @@ RULE = (
     "backend = Cache subclass over a correct store whose i-th call (get/set/exists, counted across all datasets of "
     "the graph) performs script[i] in {behave, miss, forget, lie-exists, fail-get}; all 5^N scripts for the first "
     "N=4 (quick) / 6 (thorough) calls, random longer scripts, both with the inherited exists() and with an own "
-    "exists(); histories of 3-6 evaluations on single-dataset / chain / diamond / overload graphs.  Oracle: every "
+    "exists(); histories of 3-6 evaluations on single-dataset / chain / diamond / overload graphs and on graphs whose datasets cannot be built for some dictionaries (coalesce / switch-default fall-backs over them).  Oracle: every "
     "evaluation returns the value of a fault-free instance, never raises; body runs per dataset <= evaluations of it. "
     "distinct = sha1(graph, script, variant, history); non-trivial = at least one non-'behave' action was executed."
 )
@@ -75,15 +75,15 @@ class FaultyCache(Cache):
     def exists(self, evaluatable, options):
         if not self.own_exists:
             return super().exists(evaluatable, options)
-        fp = evaluatable.fingerprint(options)
         a = self.script.next("exists")
+        if a == "lie-exists":
+            return True  # (a lying backend does not need the fingerprint - the key set may not even be computable)
         if a == "miss":
             return False
+        fp = evaluatable.fingerprint(options)
         if a == "forget":
             self.store.pop(fp, None)
             return False
-        if a == "lie-exists":
-            return True
         return fp in self.store
 
 
@@ -96,11 +96,18 @@ GRAPHS = {
                              d4={"args": [["l", DS(2)], ["r", DS(3)]]}),
     "overload": directed.prog(DS(1), d1={"args": [["a", O("A", dk="const", dv=0)]], "dispatch": "D", "overloads": [["x", {"args": [["b", O("B", dk="const", dv=1)]]}], ["y", {"expr": O("A", dk="const", dv="ya")}]]}),
     "cached-node": directed.prog({"k": "cached", "spec": {"k": "tuple", "items": [O("A", dk="const", dv=0), DS(1)]}}, d1={"args": [["b", O("B", dk="const", dv=0)]]}),
+    # evaluations that cannot be built for some dictionaries: a lying exists() must not turn a fall-back into a failure
+    "fallback": directed.prog(DS(2), d1={"args": [["a", O("A")]]},
+                              d2={"args": [["v", {"k": "coalesce", "members": [DS(1), O("B", dk="const", dv="fb")]}],
+                                           ["w", {"k": "switch", "disp": DS(1), "table": [], "default": O("C", dk="const", dv="sw-default")}]], "cache": "nocache"}),
+    "required": directed.prog({"k": "coalesce", "members": [DS(2), {"k": "const", "v": "none"}]}, d1={"args": [["a", O("A")]]}, d2={"args": [["x", DS(1)], ["b", O("B")]]}),
 }
+FAILING = ("fallback", "required")
 HISTORIES = [
     [{"A": 1}, {"A": 1}, {"A": 2}, {"A": 1}],
     [{}, {"A": 1, "B": 2}, {}, {"A": 1, "B": 2}, {"B": 2}],
     [{"D": "x"}, {"D": "y"}, {"D": "x", "B": 5}, {"D": "x"}, {"D": "z"}, {"D": "y"}],
+    [{"B": 5}, {"A": 1}, {"B": 5}, {}, {"A": 1, "B": 2}, {"B": 5}],
 ]
 
 
@@ -124,8 +131,10 @@ def run_script(ctx, gname, program, history, actions, own_exists):
             return
         bodies = [e[2] for e in G.log.since(mark, ("body",))]
         for pid in set(bodies):
-            # within one evaluation a dataset is evaluated at most once per consumer; bound: consumers <= 3 in these graphs
-            if bodies.count(pid) > 3:
+            # within one evaluation a dataset is evaluated at most once per consumer request; consumers <= 3 in the
+            # always-succeeding graphs; in the fall-back graphs the dataset is also a switch dispatch / coalesce member,
+            # which validate(), keys() and evaluate() of the enclosing uncached dataset each evaluate again
+            if bodies.count(pid) > (12 if gname in FAILING else 3):
                 ctx.violation("unbounded-recomputation", f"{gname} step {step}: body {pid} ran {bodies.count(pid)} times in one evaluation", {**W, "step": step})
                 return
     faulty = [(m, a) for m, a in script.executed if a != "behave"]
@@ -144,7 +153,7 @@ def run(ctx):
     jobs = []
     for gname, program in GRAPHS.items():
         for h, hist in enumerate(HISTORIES):
-            if gname == "overload" and h != 2 or gname != "overload" and h == 2:
+            if (h == 2) != (gname == "overload") or (h == 3) != (gname in FAILING):
                 continue
             for own in (False, True):
                 jobs.append((gname, program, hist, own))
@@ -161,7 +170,7 @@ def run(ctx):
     for i in range(ctx.n(1200, 40000)):
         r = case_rng(ctx, i)
         gname = r.choice(list(GRAPHS))
-        hist = HISTORIES[2] if gname == "overload" else r.choice(HISTORIES[:2])
+        hist = HISTORIES[2] if gname == "overload" else HISTORIES[3] if gname in FAILING else r.choice(HISTORIES[:2])
         actions = [r.choice(ACTIONS) if r.random() < 0.5 else "behave" for _ in range(r.choice([8, 16, 40]))]
         run_script(ctx, gname, GRAPHS[gname], hist, actions, r.random() < 0.5)
 
